@@ -97,6 +97,10 @@ def run(props, tier="quick", only=None, with_tests=False):
                 trc, tail = run_tests_on(root, m["tests"])
                 tests = "suite-green" if trc == 0 else f"suite-RED ({tail})"
             status = "caught" if hit else ("HARNESS-ERROR" if rc == 2 else "MISSED")
+            if m.get("expect") == "equivalent":
+                # the property still holds under this change: the check must stay quiet
+                status = "quiet-as-required" if rc == 0 else "FALSE-ALARM"
+                hit = rc == 0
             if not hit:
                 bad += 1
                 print(out[-1500:])
